@@ -1,5 +1,5 @@
 #!/usr/bin/env python3
-"""Entry point:  run.py setup | check <ID> [--tier quick|thorough] | replay <file> | all [--tier ..]"""
+"""Entry point:  run.py setup | check <ID> [--tier quick|thorough] | replay <file> | all [--tier ..] | selftest"""
 import os
 import sys
 import json
@@ -67,6 +67,8 @@ def main(argv):
             return 3
     if argv[1] == 'replay':
         return replay(argv[2])
+    if argv[1] == 'selftest':
+        return os.system('python3 %s' % os.path.join(HERE, 'tools', 'selftest.py')) >> 8
     if argv[1] == 'all':
         rc = 0
         for i in range(1, 21):
